@@ -106,7 +106,14 @@ pub fn ti_event(w: u32) -> J {
         Ok(j) => j,
         Err(_) => json!({"v": "panic"}),
     };
-    json!({"op": "ti", "w": proj::bytes(&w.to_be_bytes()), "res": res})
+    // the same word as the type info of the SECOND argument of a verbose message (after a bool), big-endian payload, followed by 40 bytes
+    let mut m = vec![0x23u8, 0, 0, (4 + 10 + 5 + 4 + 40) as u8, 0x41, 2];
+    m.extend(b"APP\0CTX\0");
+    m.extend([0, 0, 0, 0x10, 1]);
+    m.extend(w.to_be_bytes());
+    m.extend([0u8; 40]);
+    let second = slice::parse_res(&m, None, false, false)["v"].clone();
+    json!({"op": "ti", "w": proj::bytes(&w.to_be_bytes()), "res": res, "second": second})
 }
 
 /// modes: "bytes" (all HTYP and MSIN), "ti" (type-info words: shard `k` of `of` over the low 18 bits, with seeded settings of the reserved bits)
@@ -193,8 +200,9 @@ pub fn sweep(seed: u64, per_low: u32, threads: u32) -> J {
                 let mut bad: Vec<u32> = vec![];
                 for low in 0..(1u32 << 18) {
                     if low % threads != t { continue; }
-                    let base = TypeInfo::try_from(low).ok();
-                    let base_bytes = base.as_ref().map(|b| b.as_bytes::<byteorder::BigEndian>());
+                    // a panic on the low word itself is reported by the `ti` events; here it only must not take the sweep down
+                    let base = match std::panic::catch_unwind(|| TypeInfo::try_from(low).ok()) { Ok(b) => b, Err(_) => { if bad.len() < 5 { bad.push(low); } continue; } };
+                    let base_bytes = match std::panic::catch_unwind(|| base.as_ref().map(|b| b.as_bytes::<byteorder::BigEndian>())) { Ok(b) => b, Err(_) => { if bad.len() < 5 { bad.push(low); } continue; } };
                     let count = if per_low == 0 { 1u32 << 14 } else { per_low };
                     for i in 0..count {
                         let hi = if per_low == 0 { i << 18 } else { (r.next() as u32) & !0x3FFFF };
@@ -203,7 +211,7 @@ pub fn sweep(seed: u64, per_low: u32, threads: u32) -> J {
                         checked += 1;
                         let same = match (&got, &base) {
                             (Ok(None), None) => true,
-                            (Ok(Some(a)), Some(b)) => a == b && Some(a.as_bytes::<byteorder::BigEndian>()) == base_bytes,
+                            (Ok(Some(a)), Some(b)) => a == b && std::panic::catch_unwind(|| a.as_bytes::<byteorder::BigEndian>()).ok() == base_bytes,
                             _ => false,
                         };
                         if !same && bad.len() < 5 { bad.push(w); }
